@@ -23,6 +23,7 @@ import (
 	"os/exec"
 	"regexp"
 	"strings"
+	"syscall"
 	"time"
 
 	"verifharness/common"
@@ -54,6 +55,7 @@ func startChild() (*child, error) {
 	}
 	cmd := exec.Command(exe)
 	cmd.Env = append(os.Environ(), "VERIF_C12_CHILD=1")
+	cmd.SysProcAttr = &syscall.SysProcAttr{Pdeathsig: syscall.SIGKILL} // never outlive the parent (a spinning parser would)
 	in, err := cmd.StdinPipe()
 	if err != nil {
 		return nil, err
@@ -87,12 +89,19 @@ type outcome struct {
 }
 
 type runner struct {
-	c       *child
-	timeout time.Duration
+	c        *child
+	timeout  time.Duration
+	timeouts int // number of requests that ran into the watchdog
 }
+
+// maxTimeouts: after that many hanging requests the remaining inputs are not sent any more (each one costs a deadline)
+const maxTimeouts = 4
 
 // call sends one request; a dead or hanging child is reported in the outcome and replaced on the next call.
 func (r *runner) call(req request) (outcome, error) {
+	if r.timeouts >= maxTimeouts {
+		return outcome{}, nil // budget of hanging requests used up: nothing is sent any more (callers treat a nil response as "no observation")
+	}
 	if r.c == nil {
 		c, err := startChild()
 		if err != nil {
@@ -117,10 +126,7 @@ func (r *runner) call(req request) (outcome, error) {
 		ch <- res{line, err}
 	}()
 	// watchdog: a deadline that depends on the size of the input, and a bound on the resident memory of the child
-	deadline := r.timeout
-	if len(req.Data) <= 256*1024 && deadline > 30*time.Second {
-		deadline = 30 * time.Second
-	}
+	deadline := deadlineFor(len(req.Data), r.timeout)
 	start := time.Now()
 	tick := time.NewTicker(100 * time.Millisecond)
 	defer tick.Stop()
@@ -155,6 +161,7 @@ func (r *runner) call(req request) (outcome, error) {
 			if time.Since(start) > deadline || rss > rssLimit {
 				c.kill()
 				r.c = nil
+				r.timeouts++
 				return outcome{timeout: true, detail: fmt.Sprintf("no answer after %.1f s (deadline %s), resident memory of the child %d MiB (bound %d MiB): killed",
 					time.Since(start).Seconds(), deadline, rss>>20, rssLimit>>20)}, nil
 			}
@@ -163,6 +170,21 @@ func (r *runner) call(req request) (outcome, error) {
 }
 
 const rssLimit = 3 << 30
+
+// deadlineFor: answers for small inputs take milliseconds; the bound is generous and grows with the input.
+func deadlineFor(n int, max time.Duration) time.Duration {
+	d := max
+	switch {
+	case n <= 64*1024:
+		d = 10 * time.Second
+	case n <= 1<<20:
+		d = 30 * time.Second
+	}
+	if d > max {
+		d = max
+	}
+	return d
+}
 
 // childRSS: resident set size in bytes (Linux /proc), 0 if unknown.
 func childRSS(pid int) int64 {
@@ -404,6 +426,10 @@ func run(ctx *common.Ctx) error {
 		return data
 	}
 	checkGeneric := func(name string, data []byte, full bool) (*response, error) {
+		if r.timeouts >= maxTimeouts {
+			res.Count("skipped-after-timeouts")
+			return nil, nil
+		}
 		ctx.Current("INPUT "+name+" "+short(data), map[string]interface{}{"name": name, "len": len(data)})
 		res.Evaluations++
 		out, err := r.call(request{Op: "msg", Data: data, Full: full})
@@ -419,6 +445,9 @@ func run(ctx *common.Ctx) error {
 			return nil, nil
 		}
 		resp := out.resp
+		if resp == nil {
+			return nil, nil
+		}
 		if resp.Err == "" {
 			for i, w := range []string{"BODY", "BODYSTRUCTURE", "ENVELOPE"} {
 				if !resp.Wf[i] {
@@ -539,6 +568,9 @@ func run(ctx *common.Ctx) error {
 	}
 	crashedKinds := map[string]bool{}
 	for _, p := range probes {
+		if r.timeouts >= maxTimeouts {
+			break
+		}
 		key := p.Header + p.Kind
 		if crashedKinds[key] {
 			continue // report the smallest depth of the ladder only
@@ -565,6 +597,9 @@ func run(ctx *common.Ctx) error {
 			continue
 		}
 		resp := out.resp
+		if resp == nil {
+			break
+		}
 		if resp.Err == "" && !(resp.Wf[0] && resp.Wf[1] && resp.Wf[2]) {
 			fail("MALFORMED "+name, "text not accepted by wf_plist", map[string]interface{}{"probe": p})
 		}
@@ -727,7 +762,7 @@ func run(ctx *common.Ctx) error {
 		}
 		return mimegen.LeafSignature(ast), nil
 	}
-	for i := 0; i < nTrees; i++ {
+	for i := 0; i < nTrees && r.timeouts < maxTimeouts; i++ {
 		ascii := i%2 == 0
 		prefix := rng.Chance(0.35)
 		g := &mimegen.Gen{Rng: rng, MaxBody: 60, ASCII: ascii, MsgChainLeaf: true, Bare: true, NoClose: !prefix, Prefix: prefix, EmptyFields: true}
@@ -761,7 +796,7 @@ func run(ctx *common.Ctx) error {
 
 	// ----- (b4) random garbage -----
 	nGarbage := ctx.Budget(250, 12000)
-	for i := 0; i < nGarbage; i++ {
+	for i := 0; i < nGarbage && r.timeouts < maxTimeouts; i++ {
 		n := []int{5, 20, 60, 150, 300, 2000}[rng.Pick(6)]
 		data := randomGarbage(rng, n)
 		if rng.Chance(0.5) {
